@@ -106,6 +106,28 @@ func (s *vc11Stream) Send(r *hapb.BulkSyncResponse) error {
 }
 func (s *vc11Stream) Context() context.Context { return context.Background() }
 
+// ---------- the active node's session tables, as the components expose them to the HA manager ----------
+type vc11Iter struct{ live map[string]*vc11Sess }
+
+func (it *vc11Iter) ForEachSession(fn func(models.SubscriberSession) bool) {
+	keys := make([]string, 0, len(it.live))
+	for k := range it.live {
+		keys = append(keys, k)
+	}
+	sort.Strings(keys)
+	snap := make([]models.SubscriberSession, 0, len(keys))
+	for _, k := range keys {
+		s := *it.live[k]
+		s.rel = false
+		snap = append(snap, s.build())
+	}
+	for _, sess := range snap {
+		if !fn(sess) {
+			return
+		}
+	}
+}
+
 // ---------- number helpers ----------
 func vc11Big(s string) *big.Int {
 	b, ok := new(big.Int).SetString(s, 10)
@@ -509,6 +531,7 @@ func vc11Hist(f []string) string {
 	sent := map[int][]*hapb.SyncSessionRequest{}
 	next := map[int]int{}
 	live := map[string]*vc11Sess{} // "ns/sid" -> last non-released session
+	mgr.sessionIterators = []SessionIterator{&vc11Iter{live: live}}
 	panics := 0
 	guard := func(fn func()) {
 		defer func() {
@@ -562,7 +585,9 @@ func vc11Hist(f []string) string {
 					churn()
 				}
 			}}
-			if err := srv.BulkSync(&hapb.BulkSyncRequest{SrgNames: []string{vc11SrgName(g)}}, st); err != nil {
+			// the standby asks for everything after the last sequence number it has
+			req := &hapb.BulkSyncRequest{SrgNames: []string{vc11SrgName(g)}, FromSequence: rc.GetLastSeq(vc11SrgName(g))}
+			if err := srv.BulkSync(req, st); err != nil {
 				panic(err)
 			}
 			for _, data := range st.pages {
